@@ -91,6 +91,16 @@ CLAIMED = {
              "evaluated on a permuted copy; the implementation's decision is compared with both the model and the spec.",
         design="§7 C02, §8 F1 F2",
         technique="Lean 4 proof (refinement of the flattening to the declared semantics) + differential correspondence"),
+    "C16": dict(
+        text="Lean theorems over a transition system whose unit of interleaving is one actor message (any number of readiness reports, "
+             "resets, deadline handlers and queries, spawned at any time, interleaved arbitrarily): invariant proved for every reachable "
+             "state, giving finished_sound (a query not seeing a latched channel reports finished only on a positive stamp >= its tick, made "
+             "by the deadline handler or on an all-ready reply recorded in the history); error text = exactly the clear flags; updates "
+             "commute / are never lost; the tag file is replaced atomically for a single writer at a time (two-writer tearing shown as a "
+             "kernel-checked witness: clause partial). Tied to the real actor and listener: the real functions' message programs are read "
+             "through hook H3 and compared with the model programs, message-level interleavings are replayed through the public actor API, "
+             "real /provision queries with arbitrary ticks, tag file read after every step.",
+        design="§7 C16, §8 F8", technique="Lean 4 proof (invariant over an interleaving transition system) + differential correspondence"),
     "C18": dict(
         text="Lean theorems: xml_escape (five sequential replacements) equals the character-wise escape, its output has no markup "
              "character, decoding gives the text back; batching (model of send_events as a well-founded recursion): every batch is "
@@ -155,6 +165,6 @@ def main():
     json.dump(m, open(os.path.join(VERIF, "MANIFEST.json"), "w"), indent=1)
 
 NA = {}
-HOOK_COMMITS = ["e53c7a7", "ad3b7ad", "3a80227", "d817674"]
+HOOK_COMMITS = ["e53c7a7", "ad3b7ad", "3a80227", "d817674", "ce63a79"]
 if __name__ == "__main__":
     main()
